@@ -893,6 +893,9 @@ class TaggedValueCls(Generic[T], Config[T]):
           'Unexpected __fn_or_cls__ in TaggedValueCls; found:'
           f'{self.__fn_or_cls__}'
       )
+    # `tags` always comes from the tag set, also when it has been stored as an
+    # argument (e.g. by `materialize_defaults`).
+    kwargs.pop('tags', None)
     return self.__fn_or_cls__(tags=self.tags, *args, **kwargs)
 
 
